@@ -27,6 +27,10 @@ CHECKS["C05"] = dict(level="exploration", ref="6/C05",
    text="Seeded search over packager API histories (single/multi-track, full/metadata-only/interval additions, empty tracks, foreign boxes, optimisation, either encoder), segment fetch order/duplication and delivery schedules; read-back by GetFullSamples and by an independent demuxer must equal the producer's sample log per fragment and track.",
    note="Only documented-valid API histories; fault-free transport; payload pools and field pools bound the values; reference demuxer vsim/ref (written from ISO/IEC 14496-12) trusted.",
    technique="deterministic simulation: seeded producer history + unit transport (order/dup) + delivery schedule; conservation/order/exactly-once vs sample log")
+CHECKS["C03"] = dict(level="exploration", ref="6/C03",
+   text="Seeded search over byte strings (corpus, packager streams, size-repaired unit-transport rearrangements), reader delivery schedules, stream cuts/read errors and sink capacities; the property's precondition (a path accepts and reproduces X exactly) is implemented literally and the other path must then accept and be deep-equal incl. grouping and start positions; Encode vs EncodeSW compared on sampled nodes with identical capacity on both sinks.",
+   note="Deep equality is reflective (unexported fields, nil==empty); box types covered are those occurring in corpus/packager/transport output; decoder-table key sets compared through an add-only export file injected by -overlay.",
+   technique="deterministic simulation: reader delivery/cut/EIO schedules + unit transport + common sink capacity; slice path as reference for stream path and vice versa")
 PENDING = {k: "claimed in DESIGN.md but its check is not built yet in this revision (work in progress; will move to checks)" for k in ["C02","C03","C04","C05","C06","C10","C11","C12","C19","C20"] if k not in CHECKS}
 def main():
     checks = []
